@@ -3,13 +3,23 @@
 // Package xstate is an explicit-state breadth-first search whose states are event
 // histories replayed on fresh real objects (live objects cannot be cloned).
 // Successor = Build(); replay history; apply one more event. States are merged by
-// a caller-provided canonical key; the invariant runs on every transition.
+// a caller-provided canonical key; the step oracle runs on every transition.
+//
+// Determinism: replays run on parallel workers, but which history represents a
+// canonical state, the order in which violations are delivered and the examples kept
+// do not depend on worker timing: within one depth the representative of a new key is
+// the transition with the smallest (parent position, event position), and violations
+// are delivered sorted the same way after the depth completes. Only a deadline /
+// MaxStates cap makes a run timing-dependent (it is then reported in Stats.Capped).
 package xstate
 
 import (
+	"crypto/sha256"
 	"fmt"
 	"runtime"
+	"sort"
 	"sync"
+	"sync/atomic"
 	"time"
 )
 
@@ -24,6 +34,15 @@ type System[E any] interface {
 	Canon() string
 	// Close releases background goroutines.
 	Close()
+}
+
+// Replayer is optionally implemented by a System. When present the engine calls
+// Replay for the events of the prefix (state reconstruction: execute the event and
+// update the reference model, but skip expensive step oracles) and Apply only for the
+// last event of a history, the one being judged. Replay must leave the system in
+// exactly the state Apply would.
+type Replayer[E any] interface {
+	Replay(e E) (obs string)
 }
 
 // Violation found on a transition or in a state.
@@ -44,27 +63,86 @@ type Config struct {
 	MaxDepth   int
 	MaxStates  int
 	Deadline   time.Time
-	Workers    int  // parallel replays (0 = GOMAXPROCS); use 1 when Build needs a synctest bubble per replay handled by Wrap
+	Workers    int  // parallel replays (0 = GOMAXPROCS); every replay runs wholly on one goroutine (inside wrap)
 	NoMerge    bool // do not merge states by canonical key (every history is its own state)
 	Shard      int
-	NShards    int
+	NShards    int  // >1: the events of the initial state are partitioned over shards (states reached by several shards are expanded by each)
 	StopAtViol bool // do not expand states reached through a violating transition
 }
 
 // Stats of a finished search.
 type Stats struct {
-	States      int
-	Transitions int
+	States      int // distinct canonical states (histories when NoMerge), including the initial state
+	Transitions int // executed (state, event) pairs == histories replayed on the implementation
 	MaxDepth    int
 	Capped      string
-	Outcomes    map[string]struct{}
+	Outcomes    map[string]struct{} // distinct observation strings of judged events
+	Levels      []int               // new states per depth (Levels[0] == 1)
+	Replays     int                 // replays executed (== Transitions + 1)
+	Events      int64               // events executed on the implementation, prefix events included
+}
+
+// Example is one kept history (the representative of a new state).
+type Example[E any] struct {
+	History []E
+	Obs     []string
+	Key     string
+}
+
+// Options is the full form of the search parameters (Explore is the short form).
+type Options[E any] struct {
+	Config
+	// Build returns a fresh system (called inside Wrap).
+	Build func() System[E]
+	// Wrap, if non-nil, runs one replay inside an environment (e.g. a synctest bubble);
+	// it must call its argument exactly once, on the goroutine that is to own the replay.
+	Wrap func(func())
+	// Found receives violations in deterministic order after each depth completes.
+	Found func(Found[E])
+	// Transition, if non-nil, is called once per executed transition (serialised, order not deterministic).
+	Transition func(hist []E, obs []string, key string, newState bool)
+	// Examples keeps the histories of the first N new states of every depth.
+	Examples int
+	// CollectKeys records every canonical key reached (also under NoMerge) with its minimal depth.
+	CollectKeys bool
+}
+
+// Result of Run.
+type Result[E any] struct {
+	Stats
+	Examples []Example[E]
+	Keys     map[string]int
 }
 
 // Explore runs the BFS. build returns a fresh system. wrap, if non-nil, runs one
 // replay inside an environment (e.g. a synctest bubble): wrap(func()) must call its
-// argument exactly once.
+// argument exactly once. sample, if non-nil, is called for every executed transition
+// (serialised; order not deterministic).
 func Explore[E any](cfg Config, build func() System[E], wrap func(func()), found func(Found[E]), sample func(hist []E, obs []string)) Stats {
-	st := Stats{Outcomes: map[string]struct{}{}}
+	o := Options[E]{Config: cfg, Build: build, Wrap: wrap, Found: found}
+	if sample != nil {
+		o.Transition = func(hist []E, obs []string, _ string, _ bool) { sample(hist, obs) }
+	}
+	return Run(o).Stats
+}
+
+type hkey [16]byte
+
+func hashKey(s string) hkey {
+	sum := sha256.Sum256([]byte(s))
+	var k hkey
+	copy(k[:], sum[:16])
+	return k
+}
+
+// Run runs the BFS described by o.
+func Run[E any](o Options[E]) Result[E] {
+	cfg := o.Config
+	res := Result[E]{Stats: Stats{Outcomes: map[string]struct{}{}}}
+	st := &res.Stats
+	if o.CollectKeys {
+		res.Keys = map[string]int{}
+	}
 	if cfg.NShards <= 0 {
 		cfg.NShards = 1
 	}
@@ -72,132 +150,197 @@ func Explore[E any](cfg Config, build func() System[E], wrap func(func()), found
 	if workers <= 0 {
 		workers = runtime.GOMAXPROCS(0)
 	}
-	type node struct {
-		hist []E
-	}
 	run := func(f func()) {
-		if wrap != nil {
-			wrap(f)
+		if o.Wrap != nil {
+			o.Wrap(f)
 		} else {
 			f()
 		}
 	}
-	seen := map[string]struct{}{}
-	var mu sync.Mutex
+	type node struct {
+		hist   []E
+		events []E
+	}
+	// result of one transition that reached a so far unseen key
+	type cand struct {
+		ni, ei int
+		events []E
+		obs    []string
+		key    string
+	}
+	type foundAt struct {
+		ni, ei int
+		f      Found[E]
+	}
+	seen := map[hkey]struct{}{}
+
 	// initial state
+	var root node
 	var initKey string
-	var initEvents []E
 	run(func() {
-		s := build()
+		s := o.Build()
 		initKey = s.Canon()
-		initEvents = s.Enabled()
+		root.events = s.Enabled()
 		s.Close()
 	})
-	seen[initKey] = struct{}{}
+	st.Replays++
+	seen[hashKey(initKey)] = struct{}{}
+	if res.Keys != nil {
+		res.Keys[initKey] = 0
+	}
 	st.States = 1
-	frontier := []node{{}}
-	_ = initEvents
+	st.Levels = append(st.Levels, 1)
+	frontier := []node{root}
+
+	var mu sync.Mutex
 	for depth := 0; depth < cfg.MaxDepth && len(frontier) > 0; depth++ {
-		var next []node
-		type job struct {
-			n  node
-			ei int
-		}
-		// expand: for each frontier node, for each enabled event
-		jobs := make(chan node, len(frontier))
-		for i, n := range frontier {
-			if depth == 0 || cfg.NShards == 1 || true {
-				_ = i
-				jobs <- n
+		// flatten (node, event) pairs
+		type job struct{ ni, ei int }
+		var jobs []job
+		for ni, n := range frontier {
+			for ei := range n.events {
+				if depth == 0 && cfg.NShards > 1 && ei%cfg.NShards != cfg.Shard {
+					continue
+				}
+				jobs = append(jobs, job{ni, ei})
 			}
 		}
-		close(jobs)
+		cands := map[hkey]*cand{}
+		var founds []foundAt
+		var next atomic.Int64
+		var capped atomic.Value
+		var events atomic.Int64
 		var wg sync.WaitGroup
-		capped := ""
-		for w := 0; w < workers; w++ {
+		for w := 0; w < workers && w < len(jobs); w++ {
 			wg.Add(1)
 			go func() {
 				defer wg.Done()
-				for n := range jobs {
-					mu.Lock()
-					if capped != "" {
-						mu.Unlock()
-						continue
+				for {
+					j := int(next.Add(1)) - 1
+					if j >= len(jobs) {
+						return
 					}
-					if !cfg.Deadline.IsZero() && time.Now().After(cfg.Deadline) {
-						capped = "deadline"
-						mu.Unlock()
-						continue
+					if capped.Load() != nil {
+						return
 					}
-					if cfg.MaxStates > 0 && st.States >= cfg.MaxStates {
-						capped = "max states"
-						mu.Unlock()
-						continue
+					if j%64 == 0 && !cfg.Deadline.IsZero() && time.Now().After(cfg.Deadline) {
+						capped.Store(fmt.Sprintf("deadline at depth %d (%d of %d transitions of this depth done)", depth+1, j, len(jobs)))
+						return
 					}
-					mu.Unlock()
-					// enumerate events of this node by replaying once to read Enabled
-					var events []E
+					n := frontier[jobs[j].ni]
+					ev := n.events[jobs[j].ei]
+					var key string
+					obsAll := make([]string, 0, len(n.hist)+1)
+					var viol []Violation
+					var childEvents []E
 					run(func() {
-						s := build()
+						s := o.Build()
+						rp, canReplay := s.(Replayer[E])
 						for _, e := range n.hist {
-							s.Apply(e)
+							var ob string
+							if canReplay {
+								ob = rp.Replay(e)
+							} else {
+								ob, _ = s.Apply(e)
+							}
+							obsAll = append(obsAll, ob)
 						}
-						events = s.Enabled()
+						ob, v := s.Apply(ev)
+						obsAll = append(obsAll, ob)
+						viol = v
+						key = s.Canon()
+						childEvents = s.Enabled()
 						s.Close()
 					})
-					for ei, ev := range events {
-						if depth == 0 && cfg.NShards > 1 && ei%cfg.NShards != cfg.Shard {
-							continue
-						}
-						var key string
-						var obsAll []string
-						var viol []Violation
-						run(func() {
-							s := build()
-							for _, e := range n.hist {
-								o, _ := s.Apply(e)
-								obsAll = append(obsAll, o)
-							}
-							o, v := s.Apply(ev)
-							obsAll = append(obsAll, o)
-							viol = v
-							key = s.Canon()
-							s.Close()
-						})
-						hist := make([]E, len(n.hist)+1)
-						copy(hist, n.hist)
-						hist[len(n.hist)] = ev
-						mu.Lock()
-						st.Transitions++
-						st.Outcomes[obsAll[len(obsAll)-1]] = struct{}{}
-						if len(hist) > st.MaxDepth {
-							st.MaxDepth = len(hist)
-						}
-						for _, v := range viol {
-							found(Found[E]{Violation: v, History: hist, Obs: obsAll})
-						}
-						if sample != nil {
-							sample(hist, obsAll)
-						}
-						if cfg.NoMerge {
-							key = fmt.Sprintf("%d/%d/%s", depth, st.Transitions, key)
-						}
-						if _, ok := seen[key]; !ok && !(cfg.StopAtViol && len(viol) > 0) {
-							seen[key] = struct{}{}
-							st.States++
-							next = append(next, node{hist: hist})
-						}
-						mu.Unlock()
+					events.Add(int64(len(n.hist) + 1))
+					hist := make([]E, len(n.hist)+1)
+					copy(hist, n.hist)
+					hist[len(n.hist)] = ev
+
+					mu.Lock()
+					st.Transitions++
+					st.Replays++
+					st.Outcomes[obsAll[len(obsAll)-1]] = struct{}{}
+					if len(hist) > st.MaxDepth {
+						st.MaxDepth = len(hist)
 					}
+					for _, v := range viol {
+						founds = append(founds, foundAt{jobs[j].ni, jobs[j].ei, Found[E]{Violation: v, History: hist, Obs: obsAll}})
+					}
+					if res.Keys != nil {
+						if _, ok := res.Keys[key]; !ok {
+							res.Keys[key] = depth + 1
+						}
+					}
+					mkey := key
+					if cfg.NoMerge {
+						mkey = fmt.Sprintf("%d/%d/%d", depth, jobs[j].ni, jobs[j].ei)
+					}
+					hk := hashKey(mkey)
+					newState := false
+					if _, ok := seen[hk]; !ok && !(cfg.StopAtViol && len(viol) > 0) {
+						c := cands[hk]
+						if c == nil {
+							newState = true
+							cands[hk] = &cand{jobs[j].ni, jobs[j].ei, childEvents, obsAll, key}
+						} else if jobs[j].ni < c.ni || (jobs[j].ni == c.ni && jobs[j].ei < c.ei) {
+							*c = cand{jobs[j].ni, jobs[j].ei, childEvents, obsAll, key}
+						}
+					}
+					if o.Transition != nil {
+						o.Transition(hist, obsAll, key, newState)
+					}
+					if cfg.MaxStates > 0 && st.States+len(cands) >= cfg.MaxStates {
+						capped.CompareAndSwap(nil, fmt.Sprintf("max states %d at depth %d", cfg.MaxStates, depth+1))
+					}
+					mu.Unlock()
 				}
 			}()
 		}
 		wg.Wait()
-		if capped != "" {
-			st.Capped = capped
+		st.Events += events.Load()
+
+		// deterministic delivery
+		sort.SliceStable(founds, func(a, b int) bool {
+			if founds[a].ni != founds[b].ni {
+				return founds[a].ni < founds[b].ni
+			}
+			return founds[a].ei < founds[b].ei
+		})
+		if o.Found != nil {
+			for _, f := range founds {
+				o.Found(f.f)
+			}
+		}
+		cl := make([]*cand, 0, len(cands))
+		for hk, c := range cands {
+			seen[hk] = struct{}{}
+			cl = append(cl, c)
+		}
+		sort.Slice(cl, func(a, b int) bool {
+			if cl[a].ni != cl[b].ni {
+				return cl[a].ni < cl[b].ni
+			}
+			return cl[a].ei < cl[b].ei
+		})
+		nextFrontier := make([]node, 0, len(cl))
+		for i, c := range cl {
+			p := frontier[c.ni]
+			hist := make([]E, len(p.hist)+1)
+			copy(hist, p.hist)
+			hist[len(p.hist)] = p.events[c.ei]
+			nextFrontier = append(nextFrontier, node{hist: hist, events: c.events})
+			if i < o.Examples {
+				res.Examples = append(res.Examples, Example[E]{History: hist, Obs: c.obs, Key: c.key})
+			}
+		}
+		st.States += len(cl)
+		st.Levels = append(st.Levels, len(cl))
+		if c := capped.Load(); c != nil {
+			st.Capped = c.(string)
 			break
 		}
-		frontier = next
+		frontier = nextFrontier
 	}
-	return st
+	return res
 }
